@@ -2,7 +2,7 @@
    M = the node-vector trie of Model.v (what zipora calls Patricia storage), S = a duplicate-free list of keys. *)
 From ZV.Common Require Import Base Run.
 From ZV.C05 Require Import Model Spec ProofsBase ProofsInsert ProofsRemove ProofsRefine ProofsKeys ProofsLouds ProofsSpec ProofsClone.
-From ZV.C05 Require Import ModelFsa ModelDa ModelCs ModelAll ProofsFsa ProofsDaArr ProofsDaInv ProofsDaReloc ProofsDaReloc2 ProofsDaInsert.
+From ZV.C05 Require Import ModelFsa ModelDa ModelCs ModelAll ProofsFsa ProofsDaArr ProofsDaInv ProofsDaReloc ProofsDaReloc2 ProofsDaInsert ProofsDaKeys.
 Open Scope N_scope.
 
 (* ptrie_refines_set: for EVERY history of insert / remove / contains / len / accepts / longest_prefix calls
@@ -276,3 +276,32 @@ Theorem da_remove_refuted : exists ops, Forall op_ok ops /\ d_run d_empty ops <>
 Proof. exact da_remove_refuted_proof. Qed.
 Check da_remove_refuted : exists ops, Forall op_ok ops /\ d_run d_empty ops <> s_run [] ops.
 Print Assumptions da_remove_refuted.
+
+(* keys() (collect_keys_double_array_recursive from the root, fuel = number of slots + 1) lists exactly the members,
+   keys_with_prefix(p) exactly the members that start with p, each once *)
+Theorem da_keys_enumerates : forall st S k, DRel st S -> (In k (da_keys (d_da st)) <-> In k S).
+Proof. exact da_keys_enumerates_proof. Qed.
+Check da_keys_enumerates : forall st S k, DRel st S -> (In k (da_keys (d_da st)) <-> In k S).
+Print Assumptions da_keys_enumerates.
+
+Theorem da_prefix_query_exact : forall st S p k, DRel st S -> (In k (da_prefix (d_da st) p) <-> In k S /\ exists k2, k = p ++ k2).
+Proof. exact da_prefix_query_exact_proof. Qed.
+Check da_prefix_query_exact : forall st S p k, DRel st S -> (In k (da_prefix (d_da st) p) <-> In k S /\ exists k2, k = p ++ k2).
+Print Assumptions da_prefix_query_exact.
+
+Theorem da_keys_no_duplicates : forall st S p, DRel st S -> NoDup (da_keys (d_da st)) /\ NoDup (da_prefix (d_da st) p).
+Proof. exact da_keys_no_duplicates_proof. Qed.
+Check da_keys_no_duplicates : forall st S p, DRel st S -> NoDup (da_keys (d_da st)) /\ NoDup (da_prefix (d_da st) p).
+Print Assumptions da_keys_no_duplicates.
+
+(* impl Clone (re-insert keys() into a fresh double array, copy the statistics), if none of the re-insertions errs *)
+Theorem da_clone_preserves : forall st S, DRel st S -> d_clone_ok st = true -> DRel (d_clone st) S.
+Proof. exact da_clone_preserves_proof. Qed.
+Check da_clone_preserves : forall st S, DRel st S -> d_clone_ok st = true -> DRel (d_clone st) S.
+Print Assumptions da_clone_preserves.
+
+(* da_refines_set for histories that also contain clone steps (op code 8) *)
+Theorem da_refines_set_with_clone : forall ops, Forall da_op_ok_c ops -> d_noerr_c d_empty ops = true -> d_run d_empty ops = s_run [] ops.
+Proof. exact da_refines_set_with_clone_proof. Qed.
+Check da_refines_set_with_clone : forall ops, Forall da_op_ok_c ops -> d_noerr_c d_empty ops = true -> d_run d_empty ops = s_run [] ops.
+Print Assumptions da_refines_set_with_clone.
